@@ -63,6 +63,9 @@ func (i *JsByte) FromString(strBuf string) error {
 		if err != nil {
 			return err
 		}
+		if t < 0 || t > 255 {
+			return ErrInvalidByteJs
+		}
 		(*i)[j] = byte(t)
 	}
 	return nil
